@@ -146,4 +146,30 @@ def build_daycount(P, S):
     return [DC_PY, DATE_PY, FREQ_PY, GV_PY], body
 
 
-MODULES = {'DateK': build_datek, 'Calendar': build_calendar, 'DayCount': build_daycount}
+def build_datelogic(P, S):
+    from py2lean import FuncSpec, Translator, Dialect, INT, BOOL, DATE, find_function
+    consts = S.module_consts(DATE_PY)
+    tree = S.parse(DATE_PY)
+    tr = Translator(Dialect('int'), consts)
+    tr.funcs['is_leap_year'] = FuncSpec('is_leap_year', 'FinVerif.Gen.DateK.is_leap_year', [('y', INT)], BOOL)
+    tr.funcs['self.add_months'] = FuncSpec('self.add_months', 'FinVerif.Model.addMonthsD', [('mm', INT)], DATE,
+                                           implicit_args=())
+    out = []
+    selfattrs = {'self.d': ('self_.d', INT), 'self.m': ('self_.m', INT), 'self.y': ('self_.y', INT)}
+    # next_cds_date(self, mm): `self.add_months(mm)` is the hand model's addMonths (total version)
+    sp = FuncSpec('Date.next_cds_date', 'next_cds_date', [('self', DATE), ('mm', INT)], DATE)
+    fn = find_function(tree, 'Date.next_cds_date')
+    # calls are `self.add_months(mm)`: pass `self` explicitly
+    tr.funcs['self.add_months'] = FuncSpec('self.add_months', 'FinVerif.Model.addMonthsD self', [('mm', INT)], DATE)
+    out.append(tr.function(fn, sp))
+    sp = FuncSpec('Date.is_eom', 'is_eom', [('self', DATE)], BOOL, fallthrough=None)
+    out.append(tr.function(find_function(tree, 'Date.is_eom'), sp))
+    sp = FuncSpec('days_in_month', 'days_in_month', [('m', INT), ('y', INT)], INT)
+    out.append(tr.function(find_function(tree, 'days_in_month'), sp))
+    body = _prelude('DateLogic', ['FinVerif.Core.Prelude', 'FinVerif.Gen.DateK', 'FinVerif.Model.DateArith'],
+                    opens=['FinVerif.Model']) + tr.tables() + '\n' + '\n'.join(out)
+    body += '\nend FinVerif.Gen.DateLogic\n'
+    return [DATE_PY], body
+
+
+MODULES = {'DateK': build_datek, 'DateLogic': build_datelogic, 'Calendar': build_calendar, 'DayCount': build_daycount}
